@@ -41,7 +41,7 @@ ASSUMPTIONS = [
     "Links.from_vector on wrapped deltas is only required for w,h >= 3 "
     "(documented limitation for 2xN systems)",
 ]
-FLOORS = {"ldf_one_sided_wrap": 5000, "mesh_huge_coordinates": 4, "torus_beyond_double_precision": 100, "torus_length": 1000, "torus_vector": 1000, "ldf_walk": 1000,
+FLOORS = {"extreme_tie_breaks": 5000, "ldf_one_sided_wrap": 5000, "mesh_huge_coordinates": 4, "torus_beyond_double_precision": 100, "torus_length": 1000, "torus_vector": 1000, "ldf_walk": 1000,
           "mesh": 500, "hexagon_ring": 5, "hexagon_abandoned_search": 5,
           "large_torus_pair": 3000,
           "links": 6}
@@ -167,7 +167,72 @@ def run(case, ctx):
     return run_links(case, ctx, Links)
 
 
-def walk_ldf(ctx, ru, Links, v, start, w, h, dst, where):
+class ExtremeRandom(object):
+    """Stands in for the `random` module inside the library for one call:
+    every primitive returns the lowest or the highest value it can return
+    ("all outcomes of the random tie-breaks" includes the ends of each
+    primitive's range), chosen by a bit pattern."""
+
+    def __init__(self, bits):
+        self.bits = bits
+        self.calls = 0
+        self._real = random.Random(bits)
+
+    def _hi(self):
+        b = self.bits >> (self.calls % 24) & 1
+        self.calls += 1
+        return b
+
+    def random(self):
+        return 1.0 - 2.0 ** -53 if self._hi() else 0.0
+
+    def uniform(self, a, b):
+        return b if self._hi() else a
+
+    def randint(self, a, b):
+        return b if self._hi() else a
+
+    def randrange(self, a, b=None, step=1):
+        if b is None:
+            a, b = 0, a
+        n = (b - a + step - 1) // step
+        return a + (n - 1) * step if self._hi() else a
+
+    def choice(self, seq):
+        return seq[-1] if self._hi() else seq[0]
+
+    def shuffle(self, x):
+        if self._hi():
+            x.reverse()
+
+    def sample(self, population, k):
+        pop = list(population)
+        return pop[-k:][::-1] if self._hi() else pop[:k]
+
+    def getrandbits(self, k):
+        return (1 << k) - 1 if self._hi() else 0
+
+    def __getattr__(self, name):
+        return getattr(self._real, name)
+
+
+class extreme_tie_breaks(object):
+    def __init__(self, bits, *mods):
+        self.mods, self.bits = mods, bits
+
+    def __enter__(self):
+        self.old = [m.random for m in self.mods]
+        self.r = ExtremeRandom(self.bits)
+        for m in self.mods:
+            m.random = self.r
+        return self.r
+
+    def __exit__(self, *a):
+        for m, o in zip(self.mods, self.old):
+            m.random = o
+
+
+def walk_ldf(ctx, ru, Links, v, start, w, h, dst, where, exact_order=True):
     if (w is None) != (h is None) and (start[0] + start[1]) % 2:
         p = ru.longest_dimension_first(v, start, **(
             dict(width=w) if h is None else dict(height=h)))
@@ -202,8 +267,22 @@ def walk_ldf(ctx, ru, Links, v, start, w, h, dst, where):
     mags = sorted((abs(c) for c in v if c), reverse=True)
     # two dimensions may map to the same link only never (distinct dims give
     # distinct link axes), so runs correspond to dimensions
-    check([n for _, n in runs] == mags, "ldf-not-longest-first",
-          "runs %r for vector %r" % (runs, v), **where)
+    got = [n for _, n in runs]
+    if exact_order:
+        check(got == mags, "ldf-not-longest-first",
+              "runs %r for vector %r" % (runs, v), **where)
+    else:
+        # with a tie-break at the very top of its range (1 - 2**-53) the sum
+        # "magnitude + tie-break" of a dimension rounds up to the next whole
+        # number in double precision and ties with a dimension one hop
+        # longer: which of the two comes first is then a matter of the
+        # tie-break, as it is for equal magnitudes.  The property asks for
+        # adjacency, labels and the destination; the order is judged only
+        # where no rounding can touch it (magnitudes two or more apart)
+        check(sorted(got, reverse=True) == mags and
+              all(b < a + 2 for a, b in zip(got, got[1:])),
+              "ldf-not-longest-first",
+              "runs %r for vector %r" % (runs, v), **where)
     # the walk handed back is the caller's to keep and to edit (legs are
     # stitched together with += and the like): what the caller does to it
     # may not show in the answer to any later question
@@ -282,8 +361,31 @@ def run_torus(case, ctx, g, Links, ru):
                 ctx.hit("torus_length")
                 check(L == dist, "torus-length", "got %r want %d" % (L, dist),
                       **where)
-                for rep in range(3):
+                for rep in range(5):
                     random.seed(case["seed"] * 7 + rep)
+                    if rep >= 3:
+                        # tie-breaks at the ends of their ranges
+                        xr = extreme_tie_breaks(
+                            (case["seed"] >> rep) ^ (x * 7 + y * 13 + z + rep)
+                            if rep == 3 else (0, 0xffffff)[(x + y) & 1],
+                            g, ru)
+                        with xr:
+                            v = g.shortest_torus_path(src, dst, w, h)
+                            where = dict(where, tie_breaks="extreme %#x" %
+                                         xr.bits)
+                            hops = abs(v[0]) + abs(v[1]) + abs(v[2])
+                            check(hops == dist, "torus-vector-length",
+                                  "vector %r has %d hops, distance %d" %
+                                  (v, hops, dist), **where)
+                            check(((sx + v[0] - v[2]) % w,
+                                   (sy + v[1] - v[2]) % h) == dst2d,
+                                  "torus-vector-destination", "vector %r" %
+                                  (v,), **where)
+                            ctx.hit("extreme_tie_breaks")
+                            walk_ldf(ctx, ru, Links, v, (sx, sy), w, h, dst2d,
+                                     where, exact_order=False)
+                        where = dict(w=w, h=h, src=src, dst=dst, bfs=dist)
+                        continue
                     v = g.shortest_torus_path(src, dst, w, h)
                     ctx.hit("torus_vector")
                     hops = abs(v[0]) + abs(v[1]) + abs(v[2])
